@@ -95,6 +95,11 @@ def corpus_requests(thorough):
         for container in ("struct", "enum"):
             reqs.append({"derive": "Error", "item": c09.item_text(named, fields, container, lambda f, i: ("my::Backtrace" if f["ty"] == "bt" else "E%d" % i))})
     reqs += repo_inputs()
+    # recursive generic types with MANY parameters (the per-parameter bounds that replace a recursive bound, `break_recursive_bounds`):
+    # an order taken from a randomly seeded collection has 5! = 120 outcomes here, so two processes agree by chance once in 120
+    for d, a in (("Debug", ""), ("Display", '#[display("{a}{b}{c}{d}{e}")] '), ("Debug", '#[debug("{a:?}{kids:?}")] ')):
+        reqs.append({"derive": d, "item": a + "struct Tree<A, B, C, D, E> { a: A, b: B, c: C, d: D, e: E, kids: Vec<Tree<A, B, C, D, E>>, up: Option<Box<Self>> }"})
+        reqs.append({"derive": d, "item": "enum Tree<A, B, C, D, E> { %sLeaf { a: A, b: B, c: C, d: D, e: E }, %sNode(Vec<Tree<E, D, C, B, A>>) }" % (a, '#[%s("n")] ' % d.lower() if a else "")})
     # textual twins: the same item with its generic parameter list removed, so that `T`, `U`, `N`, 'a in its field types now
     # name concrete things - any state kept between expansions that is keyed by token text confuses the two
     twins = []
